@@ -775,3 +775,106 @@ def rule_rd_default(prog: Program, report: Report, pid: str) -> None:
             else:
                 report.violate("RD-default", fn, cur, f"`{p_}` defaulted as `{' '.join(src(cur).split())[:70]}`", f"the reviewed {fn.qual} defaults its parameter `{p_}` with `{d[:80]}`; now it is `{' '.join(src(cur).split())[:80]}` - an explicitly passed value or the absent case is treated differently", what=f"parameter {p_} keeps its reviewed default")
     report.count("RD-default defaulted parameters compared", n)
+
+
+# ---------------------------------------------------------------------------- RSW
+_COMMUTATIVE_CALLS = {"min", "max", "same_markup", "eq", "union", "intersection", "compare_deep", "joinable_commutes"}
+
+
+def rule_rsw(prog: Program, report: Report, pid: str) -> None:
+    """A statement of the reviewed function re-appears with two operands of one call exchanged -
+    the receiver and an argument (`before.append(frag)` -> `frag.append(before)`) or two arguments
+    (`f(from_, to)` -> `f(to, from_)`) - and is otherwise identical.  For a call that is not symmetric
+    in those operands that is a different computation; symmetric ones (min, max, eq, same_markup) are
+    exempt."""
+    import json
+    import os
+    from collections import Counter
+
+    from ..gates import _reviewed, view
+    from .rn import canon
+
+    report.rules.append("RSW")
+    here = os.path.dirname(os.path.abspath(__file__))
+    files: set[str] = set()
+    for line in open(os.path.join(os.path.dirname(os.path.dirname(here)), "properties.jsonl"), encoding="utf-8"):
+        pr = json.loads(line)
+        if pr["id"] == pid:
+            files = set(pr.get("anchors", {}).get("files", []))
+
+    def diffs(a: ast.AST, b: ast.AST, out: list, ctx: list) -> bool:
+        """parallel walk; collects (a_sub, b_sub, enclosing-call-of-a, role) for differing leaves;
+        False when the trees differ in shape."""
+        if type(a) is not type(b):
+            return False
+        if isinstance(a, (ast.Name, ast.Attribute, ast.Constant, ast.Subscript)) and canon(a) != canon(b):  # type: ignore[arg-type]
+            if isinstance(a, ast.Attribute) and isinstance(b, ast.Attribute) and a.attr == b.attr:
+                return diffs(a.value, b.value, out, ctx)
+            out.append((a, b, ctx[-1] if ctx else None))
+            return True
+        if isinstance(a, ast.Call):
+            if len(a.args) != len(b.args) or len(a.keywords) != len(b.keywords):  # type: ignore[attr-defined]
+                return False
+            ctx.append(a)
+            ok = diffs(a.func, b.func, out, ctx)  # type: ignore[attr-defined]
+            for x, y in zip(a.args, b.args):  # type: ignore[attr-defined]
+                ok = ok and diffs(x, y, out, ctx)
+            for x, y in zip(a.keywords, b.keywords):  # type: ignore[attr-defined]
+                ok = ok and x.arg == y.arg and diffs(x.value, y.value, out, ctx)
+            ctx.pop()
+            return ok
+        fa, fb = list(ast.iter_fields(a)), list(ast.iter_fields(b))
+        for (na, va), (nb, vb) in zip(fa, fb):
+            if na in ("ctx", "lineno", "col_offset", "end_lineno", "end_col_offset", "type_comment"):
+                continue
+            if isinstance(va, list) and isinstance(vb, list):
+                if len(va) != len(vb):
+                    return False
+                for x, y in zip(va, vb):
+                    if isinstance(x, ast.AST) and isinstance(y, ast.AST):
+                        if not diffs(x, y, out, ctx):
+                            return False
+                    elif x != y:
+                        return False
+            elif isinstance(va, ast.AST) and isinstance(vb, ast.AST):
+                if not diffs(va, vb, out, ctx):
+                    return False
+            elif va != vb:
+                return False
+        return True
+
+    n = 0
+    for key, fn in sorted(prog.funcs.items()):
+        if fn.module.rel not in files:
+            continue
+        v = view(prog, key)
+        rv = _reviewed(v)
+        if rv is None or "stmts" not in rv:
+            continue
+        stmts = [st for st in walk_own(fn.node) if isinstance(st, (ast.Assign, ast.AnnAssign, ast.AugAssign, ast.Expr, ast.Return))]
+        now = Counter(" ".join(src(st).split()) for st in stmts)
+        old = Counter(rv["stmts"])
+        gone = list((old - now).elements())
+        new = [st for st in stmts if (now - old).get(" ".join(src(st).split()), 0) > 0]
+        if not gone or not new or len(gone) > 6:
+            continue
+        for st in new:
+            for g in gone:
+                try:
+                    gt = ast.parse(g).body[0]
+                except SyntaxError:
+                    continue
+                out: list = []
+                if not diffs(gt, st, out, []) or len(out) != 2:
+                    continue
+                (a1, b1, c1), (a2, b2, c2) = out
+                if c1 is None or c1 is not c2:
+                    continue
+                if canon(a1) != canon(b2) or canon(a2) != canon(b1):
+                    continue
+                callee = c1.func.attr if isinstance(c1.func, ast.Attribute) else (c1.func.id if isinstance(c1.func, ast.Name) else "")
+                n += 1
+                if callee in _COMMUTATIVE_CALLS:
+                    continue
+                report.violate("RSW", fn, st, f"operands exchanged: {' '.join(src(st).split())[:80]}", f"the reviewed {fn.qual} has `{g[:80]}`; the same statement now has `{canon(a1)}` and `{canon(a2)}` exchanged inside the call to `{callee}` and is otherwise identical - for a call that is not symmetric in them this computes something else (wrong side / wrong order)", what="no two operands of a reviewed call are exchanged")
+    report.count("RSW statements with exchanged operands", n)
